@@ -1,6 +1,6 @@
 //! C15 correspondence harness: process a synthesized dump (the C14 generator, plus hostile names
 //! and symbol files), call the real `ProcessState::print_json` (compact and pretty) and print
-//!   F <facts of the ProcessState's public fields>\tV <modelled view of the real JSON, compact>\tJ <hex compact bytes>\tP <hex pretty bytes>
+//!   F <facts of the ProcessState's public fields>\tV <modelled view of the real JSON, compact>\tJ <hex compact bytes>\tP <hex pretty bytes>\tC <f32::to_bits of each bit flip's confidence>
 //!
 //! case: <C14 case> X TN <k> {hex}*k MN <m> {hex}*m UN <u> {hex}*u SYM <q> {modidx hex}*q
 //!   TN thread names (N entry j uses TN[j % k]); MN / UN code_file of module / unloaded module i
@@ -399,7 +399,12 @@ fn run(line: &str) -> String {
     state.print_json(&mut pretty, true).expect("print_json pretty");
     let v: Value = serde_json::from_slice(&compact).expect("serde_json parses compact output");
     let vw = serde_json::to_string(&view(&v)).unwrap();
-    format!("F {}\tV {}\tJ {}\tP {}", facts(&state), vw, hex(&compact), hex(&pretty))
+    let conf = state
+        .exception_info
+        .as_ref()
+        .map(|ei| ei.possible_bit_flips.iter().map(|b| b.confidence.map(|c| c.to_bits().to_string()).unwrap_or("-".into())).collect::<Vec<_>>().join(","))
+        .unwrap_or_default();
+    format!("F {}\tV {}\tJ {}\tP {}\tC {}", facts(&state), vw, hex(&compact), hex(&pretty), conf)
 }
 
 fn main() {
